@@ -7,31 +7,32 @@ namespace Log4rs.Pattern.Parse
 
 /-- unfolding of `compile` on a formatter piece (simp-friendly: `simp [compile]` on this
 nested-recursive definition is avoided) -/
-theorem compile_arg (n : List Char) (args : List (List Piece)) (p : Params) :
-    compile (.arg n args p) =
-      if n = cs!"d" || n = cs!"date" then dateChunk args p
+theorem compile_arg (B : Build) (n : List Char) (args : List (List Piece)) (p : Params) :
+    compile B (.arg n args p) =
+      if n = cs!"d" || n = cs!"date" then dateChunk B args p
       else match groupOfName n with
         | some g =>
           match args with
-          | [a] => .group g (compileL a) p
+          | [a] => .group g (compileL B a) p
           | _ => .error eExactlyOne
         | none =>
           match leafOfName n with
           | some k => noArgs args p k
           | none =>
-            if n = cs!"X" || n = cs!"mdc" then mdcChunk args p
+            if n = cs!"X" || n = cs!"mdc" then mdcChunk B args p
             else .error (eUnknownFormatter n) := by
   rw [compile]
   split <;> rfl
 
-theorem compile_text (s : List Char) : compile (.text s) = .text s := by rw [compile]
-theorem compile_error (e : List Char) : compile (.error e) = .error e := by rw [compile]
-theorem compileL_nil : compileL [] = [] := by rw [compileL]
-theorem compileL_cons (p : Piece) (ps : List Piece) : compileL (p :: ps) = compile p :: compileL ps := by
+theorem compile_text (B : Build) (s : List Char) : compile B (.text s) = .text s := by rw [compile]
+theorem compile_error (B : Build) (e : List Char) : compile B (.error e) = .error e := by rw [compile]
+theorem compileL_nil (B : Build) : compileL B [] = [] := by rw [compileL]
+theorem compileL_cons (B : Build) (p : Piece) (ps : List Piece) :
+    compileL B (p :: ps) = compile B p :: compileL B ps := by
   rw [compileL]
 
 theorem leafText_ok (env : Env) (r : Record) (k : Leaf)
-    (h : ∀ fmt utc, k = .time fmt utc → env.strftimeOk fmt utc = true) :
+    (h : ∀ fmt utc, k = .time fmt utc → env.strftimeOk fmt = true) :
     leafText env r k = .ok (leafTextPure env r k) := by
   cases k <;> simp [leafText, leafTextPure]
   rename_i fmt utc
@@ -43,7 +44,7 @@ theorem leafText_ne_err (env : Env) (r : Record) (k : Leaf) (e : Unit) : leafTex
 
 mutual
 theorem encChunk_eq_ops (env : Env) (r : Record) : ∀ (c : Chunk),
-    (∀ x ∈ renderedTimes env c, env.strftimeOk x.1 x.2 = true) → encChunk env r c = .ok (opsChunk env r c)
+    (∀ x ∈ renderedTimes env c, env.strftimeOk x.1 = true) → encChunk env r c = .ok (opsChunk env r c)
   | .text s, _ => by simp [encChunk, opsChunk]
   | .error e, _ => by simp [encChunk, opsChunk]
   | .leaf k p, h => by
@@ -72,7 +73,7 @@ theorem encChunk_eq_ops (env : Env) (r : Record) : ∀ (c : Chunk),
       · have := encList_eq_ops env r cs (by simpa [renderedTimes, hd] using h)
         simp [encChunk, opsChunk, this, omap, hd]
 theorem encList_eq_ops (env : Env) (r : Record) : ∀ (cs : List Chunk),
-    (∀ x ∈ renderedTimesL env cs, env.strftimeOk x.1 x.2 = true) → encList env r cs = .ok (opsList env r cs)
+    (∀ x ∈ renderedTimesL env cs, env.strftimeOk x.1 = true) → encList env r cs = .ok (opsList env r cs)
   | [], _ => by simp [encList, opsList]
   | c :: cs, h => by
     have h1 := encChunk_eq_ops env r c (fun x hx => h x (by simp [renderedTimesL, hx]))
@@ -157,5 +158,148 @@ theorem ofText_text (cs : List Char) : Out.text (ofText cs) = cs := by
 
 theorem text_append (a b : Out) : Out.text (a ++ b) = Out.text a ++ Out.text b := by
   simp [Out.text, List.filterMap_append]
+
+
+/-! ### after the repair of F4 every time chunk carries a format chrono's item parser accepts -/
+
+theorem timesOf_text (s : List Char) : timesOf (.text s) = [] := by rw [timesOf]
+theorem timesOf_error (e : List Char) : timesOf (.error e) = [] := by rw [timesOf]
+theorem timesOf_group (g : GroupKind) (cs : List Chunk) (p : Params) :
+    timesOf (.group g cs p) = timesOfL cs := by rw [timesOf]
+theorem timesOf_leaf_time (f : List Char) (u : Bool) (p : Params) :
+    timesOf (.leaf (.time f u) p) = [(f, u)] := by rw [timesOf]
+theorem timesOf_leaf_nontime (k : Leaf) (p : Params) (hk : ∀ f u, k ≠ .time f u) :
+    timesOf (.leaf k p) = [] := by
+  cases k <;> first
+    | (exact absurd rfl (hk _ _))
+    | (rw [timesOf]; intros; contradiction)
+theorem timesOf_leaf_mdc (k d : List Char) (p : Params) : timesOf (.leaf (.mdc k d) p) = [] :=
+  timesOf_leaf_nontime _ p (by intro f u h; cases h)
+theorem renderedTimes_group (env : Env) (g : GroupKind) (cs : List Chunk) (p : Params) :
+    renderedTimes env (.group g cs p) =
+      match g with
+      | .debug => if env.debugBuild then renderedTimesL env cs else []
+      | .release => if env.debugBuild then [] else renderedTimesL env cs
+      | _ => renderedTimesL env cs := by
+  cases g <;> rw [renderedTimes] <;> first | rfl | (intros; contradiction)
+theorem timesOfL_nil : timesOfL [] = [] := by rw [timesOfL]
+theorem timesOfL_cons (c : Chunk) (cs : List Chunk) : timesOfL (c :: cs) = timesOf c ++ timesOfL cs := by
+  rw [timesOfL]
+
+theorem leafLookup_mem (n : List Char) : ∀ (tbl : List (List Char × Leaf)) (k : Leaf),
+    leafLookup n tbl = some k → (n, k) ∈ tbl
+  | [], k, h => by simp [leafLookup] at h
+  | (m, k') :: rest, k, h => by
+    unfold leafLookup at h
+    split at h
+    · rename_i hn; cases h; subst hn; exact List.mem_cons_self
+    · exact List.mem_cons_of_mem _ (leafLookup_mem n rest k h)
+
+def Leaf.isTime : Leaf → Bool
+  | .time _ _ => true
+  | _ => false
+
+theorem leafTable_nontime : ∀ e ∈ leafTable, e.2.isTime = false := by decide
+
+theorem leafTable_notGroup : ∀ e ∈ leafTable,
+    groupOfName e.1 = none ∧ e.1 ≠ cs!"d" ∧ e.1 ≠ cs!"date" := by decide
+
+theorem timesOf_leafOfName (n : List Char) (k : Leaf) (p : Params) (h : leafOfName n = some k) :
+    timesOf (.leaf k p) = [] := by
+  apply timesOf_leaf_nontime
+  intro f u hc
+  subst hc
+  have := leafTable_nontime _ (leafLookup_mem n leafTable _ h)
+  simp [Leaf.isTime] at this
+
+theorem dateChunk_times (B : Build) (hd : B.dateCheck = true) (args : List (List Piece)) (p : Params) :
+    ∀ x ∈ timesOf (dateChunk B args p), B.dateOk x.1 = true := by
+  intro x hx
+  unfold dateChunk at hx
+  split at hx
+  · rw [timesOf_error] at hx; cases hx
+  · simp only [hd, Bool.true_and] at hx
+    split at hx
+    · rw [timesOf_error] at hx; cases hx
+    · rename_i hok
+      have hok' : B.dateOk (dateFormatArg args) = true := by simpa using hok
+      split at hx
+      · split at hx
+        · rw [timesOf_leaf_time] at hx; simp at hx; subst hx; exact hok'
+        · rw [timesOf_error] at hx; cases hx
+      · rw [timesOf_leaf_time] at hx; simp at hx; subst hx; exact hok'
+
+theorem mdcChunk_times (B : Build) (args : List (List Piece)) (p : Params) :
+    timesOf (mdcChunk B args p) = [] := by
+  unfold mdcChunk
+  repeat (first | rw [timesOf_error] | rw [timesOf_leaf_mdc] | split)
+
+mutual
+theorem times_compile (B : Build) (hd : B.dateCheck = true) :
+    ∀ (pc : Piece), ∀ x ∈ timesOf (compile B pc), B.dateOk x.1 = true
+  | .text s => by rw [compile_text, timesOf_text]; intro x hx; cases hx
+  | .error e => by rw [compile_error, timesOf_error]; intro x hx; cases hx
+  | .arg n args p => by
+    intro x hx
+    rw [compile_arg] at hx
+    split at hx
+    · exact dateChunk_times B hd args p x hx
+    · split at hx
+      · match args, hx with
+        | [], hx => rw [timesOf_error] at hx; cases hx
+        | [a], hx =>
+          simp only [timesOf_group] at hx
+          exact times_compileL B hd a x hx
+        | _ :: _ :: _, hx => rw [timesOf_error] at hx; cases hx
+      · split at hx
+        · rename_i k hk
+          unfold noArgs at hx
+          split at hx
+          · rw [timesOf_leafOfName n k p hk] at hx; cases hx
+          · rw [timesOf_error] at hx; cases hx
+        · split at hx
+          · rw [mdcChunk_times] at hx; cases hx
+          · rw [timesOf_error] at hx; cases hx
+theorem times_compileL (B : Build) (hd : B.dateCheck = true) :
+    ∀ (ps : List Piece), ∀ x ∈ timesOfL (compileL B ps), B.dateOk x.1 = true
+  | [] => by rw [compileL_nil, timesOfL_nil]; intro x hx; cases hx
+  | pc :: ps => by
+    intro x hx
+    rw [compileL_cons, timesOfL_cons, List.mem_append] at hx
+    rcases hx with h | h
+    · exact times_compile B hd pc x h
+    · exact times_compileL B hd ps x h
+end
+
+mutual
+theorem rendered_sub_times (env : Env) : ∀ (c : Chunk), ∀ x ∈ renderedTimes env c, x ∈ timesOf c
+  | .text s => by rw [renderedTimes]; intro x hx; cases hx
+  | .error e => by rw [renderedTimes]; intro x hx; cases hx
+  | .leaf k p => by
+    intro x hx
+    cases k <;> rw [renderedTimes] at hx <;> first | (cases hx; done) | (rw [timesOf]; exact hx)
+  | .group g cs p => by
+    intro x hx
+    rw [timesOf_group]
+    rw [renderedTimes_group] at hx
+    cases g <;> simp only at hx
+    · exact rendered_sub_timesL env cs x hx
+    · exact rendered_sub_timesL env cs x hx
+    · split at hx
+      · exact rendered_sub_timesL env cs x hx
+      · cases hx
+    · split at hx
+      · cases hx
+      · exact rendered_sub_timesL env cs x hx
+theorem rendered_sub_timesL (env : Env) : ∀ (cs : List Chunk), ∀ x ∈ renderedTimesL env cs, x ∈ timesOfL cs
+  | [] => by rw [renderedTimesL]; intro x hx; cases hx
+  | c :: cs => by
+    intro x hx
+    rw [renderedTimesL, List.mem_append] at hx
+    rw [timesOfL_cons, List.mem_append]
+    rcases hx with h | h
+    · exact Or.inl (rendered_sub_times env c x h)
+    · exact Or.inr (rendered_sub_timesL env cs x h)
+end
 
 end Log4rs.Pattern.Parse
